@@ -192,6 +192,17 @@ def _record_analysis(spec):
                     continue
                 for j in idx:
                     ev.append({"t": "swap", "j": j + 1, **bin_fields(r, j, s, hs)})
+            elif kind == "swapsingle":
+                # single-bin requests at fractional bin numbers within 1e-4 rad of DC and of Nyquist, channels in both orders
+                import speckit
+                for (fq, Ls) in ((1.3e-5 * fs, 3001), (0.49999 * fs, 1000), (0.5 * fs - 2.1e-5 * fs, 777), (3.1e-5 * fs, 2500)):
+                    kw1 = dict(L=min(Ls, spec["N"]), olap=0.5, win="hann", order=spec["order"], backend=spec["backend"])
+                    r1 = speckit.compute_single_bin(np.vstack([x, y]), fs, fq, **kw1)
+                    r2 = speckit.compute_single_bin(np.vstack([y, x]), fs, fq, **kw1)
+                    n1 = math.sqrt(float(r1.Gxx[0] * r1.Gyy[0])) or 1.0
+                    g1, g2 = r1.Gxy[0] / n1, r2.Gxy[0] / n1
+                    ev.append({"t": "swap1", "g": [qc(g1.real), qc(g1.imag)], "gs": [qc(g2.real), qc(g2.imag)], "coh": qc(float(r1.coh[0])), "cohs": qc(float(r2.coh[0])),
+                               "gxx": qc(float(r1.Gxx[0]) / max(float(r1.Gxx[0]), float(r1.Gyy[0]))), "gyys": qc(float(r2.Gyy[0]) / max(float(r1.Gxx[0]), float(r1.Gyy[0])))})
             elif kind == "alone":
                 for ch, rec in ((1, x), (2, y)):
                     r = analyze(rec, fs, spec)
